@@ -102,6 +102,7 @@ def base_evidence(prop, tier, seed, m, d, rule, extra_assumptions=()):
                 'abstract states/configurations reached (see the property '
                 'module: e.g. framing mode x cipher x variant, call-outcome '
                 'sequence, conversation x cut offset)'},
+            'scenario_variants': list(getattr(prop, 'VARIANTS', ())),
             'real_components': REAL,
             'stub_components': STUB,
         },
